@@ -10,7 +10,8 @@ const char* const H_PROPERTY = "C07";
 #define MAXFB 8
 #define MAXOPS 6
 enum { R_RD = 0, R_WR, R_TRYRD, R_TRYWR };
-static fiber_rwlock_t rw;
+static fiber_rwlock_t* rw_p; /* heap memory with arbitrary previous contents */
+#define rw (*rw_p)
 static int readers, writers;
 static int held_by_main; /* read locks the main fiber holds while the workers run (large reader counts) */
 static struct {
@@ -174,6 +175,7 @@ void h_run(void) {
   if (nwr >= 1 && nfib >= 2) sim_nontrivial();
   sim_fiber_mode();
   fiber_manager_init(c.threads);
+  rw_p = h_dirty_alloc(sizeof *rw_p);
   fiber_rwlock_init(&rw);
   /* unusual input: very many simultaneous readers.  The main fiber takes X read locks (the state after X
    * uncontended rdlock calls, written directly to save steps), lets the workers run for a while and then
